@@ -665,6 +665,10 @@ class Gen:
                     t.parent = rng.choice(mains).name
         m = D.ModuleDef("sim", self.module_default_order, self.enums, self.structs)
         m.mains = [s.name for s in mains]
+        # parameterised helper structures are also observed directly, as top-level views with drawn arguments
+        for sd, _size in self.leafs:
+            if sd.params and not getattr(sd, "parent", None) and rng.random() < 0.5:
+                m.mains.append(sd.name)
         # helper types in an imported file (only when none of them is an inline definition: a type
         # in the imported file could not refer to one defined inside a structure of the importing file)
         m.split = bool("imports" in self.f and len(self.structs) + len(self.enums) > len(mains)
